@@ -299,7 +299,15 @@ def check_loader(run):
          "ModelImportError"),
         ("incomplete", d / "a" / "incomplete.py", True,
          "ModelIncompleteError"),
+        # paths the import machinery has no loader for: valid model code in
+        # a file without a Python suffix, a folder
+        ("text-suffix", d / "a" / "model_custom.txt", False,
+         "ModelImportError"),
+        ("no-suffix", d / "a" / "model_custom", False, "ModelImportError"),
+        ("directory", d / "b", False, "ModelImportError"),
     ]
+    (d / "a" / "model_custom.txt").write_text(MODEL_SRC % {"key": "nv_txt"})
+    (d / "a" / "model_custom").write_text(MODEL_SRC % {"key": "nv_nosuf"})
     for presence in ("absent", "present-early", "present-last"):
         for name, path, reg, want in cases:
             saved_path = list(sys.path)
